@@ -23,11 +23,11 @@ EXPLANATION = (
     "mismatch resends _current_block[ackseq:] with seqno reset and the NEW block size in force before the first resent "
     "segment, pos rolled back by the resent bytes; R6 CRC fed exactly once per chunk (not while retransmitting), "
     "algorithm crc_hqx seeded 0, support taken from bit 2 of the server's answer; R7 segments retained for "
-    "retransmission are immutable copies."
+    "retransmission are immutable copies; R8 every response (initiate, block acknowledge, end) is validated before its "
+    "bytes are used and a wrong one aborts and raises (the validate-before-use clause shared with C07.R3)."
 )
 ASSUMPTIONS = [
     "not decided: retransmission outcomes under arbitrary loss patterns; the server is assumed standard-conformant",
-    "validate-before-use of the responses is decided under C07.R3",
 ]
 
 
@@ -72,6 +72,11 @@ def run(chk):
     _crc(chk, repo, folder)
     _writers(chk, repo, folder)
     _copies(chk, repo, folder)
+
+    # ------------------------------------------------------------------ R8 fails visibly: responses validated before use (shared with C07.R3)
+    from . import c07
+    from .common import RuleProxy
+    c07.validate_sites(RuleProxy(chk, "R8"), classes=("BlockDownloadStream",))
 
 
 def _initiate(chk, repo, folder, ff, fr):
@@ -182,6 +187,18 @@ def _sequence(chk, repo, folder):
     init = repo.func(CL, f"{C}.__init__", "C12.R4")
     st = attr_stores(init.node, "_seqno")
     chk.check(len(st) == 1 and folder.try_fold(st[0].value, Scope(init.mod), None) == 0, "R4", f"{CL}:{C}.__init__ | seqno starts at 0", init.loc(), "")
+    st = attr_stores(init.node, "pos")
+    chk.check(len(st) == 1 and folder.try_fold(st[0].value, Scope(init.mod), None) == 0, "R4", f"{CL}:{C}.__init__ | position starts at 0", init.loc(),
+              "the end of the payload is recognised by pos + len(chunk) >= size: a start value other than 0 flags the wrong segment as the last one")
+    posup = [n for n in own_nodes(f.node) if isinstance(n, ast.AugAssign) and src(n.target) == "self.pos"]
+    chk.check(len(posup) == 1 and isinstance(posup[0].op, ast.Add) and src(posup[0].value) == "len(b)" and not [x for x in attr_stores(f.node, "pos") if isinstance(x, ast.Assign)], "R4",
+              f"{CL}:{C}.send | position advances by the bytes sent", f.loc(), f"{[src(x) for x in posup]}")
+    wr = repo.func(CL, f"{C}.write", "C12.R4")
+    fwr = ff_for(chk, wr, "C12.R4")
+    for c in find_calls(wr.node, "self.send"):
+        g = [(fwr.norm(e, subst=False), p) for e, p in fwr.facts_at(fwr.stmt_of(c))]
+        chk.check(("self._done", False) in g, "R4", f"{CL}:{C}.write | nothing is sent after the last segment", wr.loc(c),
+                  f"send() reachable under {g}: data written after the segment flagged as last would be sent into a finished transfer")
     acks = [n for n in ff.cfg.nodes if node_calls(n, "self._block_ack")]
     chk.floor("R4", len(acks), 1, "_block_ack call in send")
     for a in acks:
